@@ -104,6 +104,20 @@ Fixpoint b64_go (s : string) (q : list sext) : string * bool :=
     end
   end.
 
+(* the text without the CR/LF bytes that the decoder skips *)
+Fixpoint strip_nl (s : string) : string :=
+  match s with
+  | EmptyString => EmptyString
+  | String c r => if is_nl c then strip_nl r else String c (strip_nl r)
+  end.
+
+Fixpoint groups3 (y : string) : bool :=       (* made of complete 3-byte groups (length divisible by 3) *)
+  match y with
+  | EmptyString => true
+  | String _ (String _ (String _ r)) => groups3 r
+  | _ => false
+  end.
+
 (* payload, _ := base64.StdEncoding.DecodeString(s) *)
 Definition b64_decode_prefix (s : string) : string := fst (b64_go s []).
 Definition b64_decode_ok (s : string) : bool := snd (b64_go s []).
